@@ -11,6 +11,8 @@ def parseOp : String → Option LitOp
   | "nin" => some .notInArr
   | "contains" => some .contains
   | "ncontains" => some .notContains
+  | "icontains" => some .icontains
+  | "nicontains" => some .notIcontains
   | _ => none
 
 /-- what the documented semantics give for `f <op> literal` when the literal denotes `d` -/
